@@ -26,6 +26,10 @@ def builder_cases():
         Sink("store:ppc.branch.RATE_A", {"V": 1, "A": 1, "par": 1}, 6, ["net.line.max_i_ka", "net.line.df", "net.line.parallel", "net.bus.vn_kv"]),
         Sink("store:ppc.branch.BR_STATUS", {}, 0, ["net.line.in_service"]),
     ], options=line_opts, doc="doc/elements/line_par.rst"))
+    cases.append(Case("line-dc", f"{BBR}:_calc_line_dc_parameter", [
+        Sink("store:ppc.branch_dc.DC_BR_R", {"B": 1, "par": -1}, 0, ["net.line_dc.r_ohm_per_km", "net.line_dc.length_km", "net.line_dc.parallel",
+                                                                     "ppc.bus_dc.DC_BASE_KV", "net.sn_mva"]),
+    ], options={"mode": "pf", "tdpf": False, "consider_line_temperature": False}))
     cases.append(Case("line-3ph", f"{BBR}:_calc_line_parameter", [
         Sink("store:ppc.branch.BR_R", {"B": 1, "par": -1}, 0),
         Sink("store:ppc.branch.BR_B", {"B": -1, "par": 1}, 0),
@@ -108,8 +112,8 @@ def builder_cases():
     ], options={"mode": "pf", "trafo3w_losses": "star"}, doc="doc/elements/shunt_par.rst"))
     # helper-level obligations with typed symbolic arguments
     cases.append(Case("y-from-df", f"{BBR}:_calc_y_from_dataframe", [
-        Sink("ret:0", {"B": -1, "par": 1}, 0, ["net.trafo.pfe_kw", "net.trafo.vn_lv_kv"]),
-        Sink("ret:1", {"B": -1, "par": 1}, 0, ["net.trafo.i0_percent", "net.trafo.sn_mva", "net.trafo.pfe_kw"]),
+        Sink("ret:0", {"B": -1, "par": 1}, 0, ["net.trafo.pfe_kw", "net.trafo.vn_lv_kv", "vn_trafo_lv"]),
+        Sink("ret:1", {"B": -1, "par": 1}, 0, ["net.trafo.i0_percent", "net.trafo.sn_mva", "net.trafo.pfe_kw", "vn_trafo_lv"]),
     ], args={"mode": facts.const("pf"), "trafo_df": table("trafo"), "vn_lv": kv("vn_lv"), "vn_trafo_lv": kv("vn_trafo_lv"),
              "net_sn_mva": base_mva()}))
     cases.append(Case("rx-from-df", f"{BBR}:_calc_r_x_from_dataframe", [
